@@ -37,7 +37,8 @@ MASS_APPROX = APPROX_RULE_ELEMS | {"TRI6"}
 
 
 def eq_for(elem, mass=False):
-    return close if elem in (MASS_APPROX if mass else APPROX_RULE_ELEMS) else same
+    parts = MIXED.get(elem, (elem,))
+    return close if any(e in (MASS_APPROX if mass else APPROX_RULE_ELEMS) for e in parts) else same
 
 
 # ---------------------------------------------------------------------------------------------------------------------
@@ -54,7 +55,19 @@ def warp3(x, y, z):
     return (x, y, z)
 
 
+MIXED = {"TRI3+QUAD4": ("TRI3", "QUAD4"), "TRI6+QUAD8": ("TRI6", "QUAD8")}
+
+
 def domain_mesh(W, elem, warped=True, n=2, perm=None):
+    if elem in MIXED:
+        # the left half of the box in triangles, the right half in quadrangles (two main-dimension groups sharing an edge)
+        et, eq_ = MIXED[elem]
+        tri = grid_cells("TRI", 1, 2, lx=1, ly=1, warp=None)
+        quad = [[tuple([v[0] + 1] + list(v[1:])) for v in c] for c in grid_cells("QUAD", 1, 2, lx=1, ly=1)]
+        md = build_mesh_data(W.lib, [(et, tri), (eq_, quad)], None)
+        if perm is not None:
+            md = permuted(md, perm)
+        return md, W.mesh(md)
     topo = topo_of(elem)
     dim = TOPO[topo]["dim"]
     if dim == 1:
@@ -151,10 +164,11 @@ def domain_measure(dim):
 # C01: the patch test, end to end
 def patch_test_rule(ctx, rid="R1.E1", elems=None, thorough_elems=()):
     repo = ctx.repo
+    only = elems is not None
     elems = list(elems or ["TRI3", "QUAD4", "TRI6", "QUAD8", "QUAD9", "TETRA4", "HEXA8", "PRISM6"])
     if ctx.tier == "thorough":
         elems += list(thorough_elems)
-    r = ctx.rule(rid, "patch test interpreted end to end (mesh, material, Elastic simulation, add_dirichlet, Solve, Result): a symbolic linear displacement prescribed on the boundary of a distorted mesh is reproduced at every node; strains, stresses and the strain energy are those of the constant gradient (reference: Hooke's law written in the checker), for every linear field at once", min_instances=6)
+    r = ctx.rule(rid, "patch test interpreted end to end (mesh, material, Elastic simulation, add_dirichlet, Solve, Result): a symbolic linear displacement prescribed on the boundary of a distorted mesh is reproduced at every node; strains, stresses and the strain energy are those of the constant gradient (reference: Hooke's law written in the checker), for every linear field at once", min_instances=2 if only else 6)
     solve = repo.lookup_method(repo.cls(ELASTIC), "Solve")
     W0 = World(repo)
 
@@ -193,7 +207,7 @@ def patch_test_rule(ctx, rid="R1.E1", elems=None, thorough_elems=()):
 
         return (f"patch test {elem}{'' if planeStress else ' plane strain'}", solve, thunk)
 
-    scen = [scenario(e) for e in elems] + [scenario("TRI3", False), scenario("QUAD4", False)]
+    scen = [scenario(e) for e in elems] + ([] if only else [scenario("TRI3", False), scenario("QUAD4", False), scenario("TRI3+QUAD4"), scenario("TRI6+QUAD8")])
     run_scenarios(ctx, r, scen)
 
 
@@ -332,7 +346,7 @@ def operators_rule(ctx, rid="R2.E1"):
                     s = sum((Kd[i][j] * m[j] for j in range(n)), Q(0))
                     if not eq(s, 0):
                         return f"{elem}: K applied to rigid-body mode {k} gives {polys(s)[0]} at dof {i}: a rigid motion stores strain energy"
-            if elem not in MASS_APPROX:
+            if eqm is same:
                 rk = rank_q(Kd)
                 nr = 3 if dim == 2 else 6
                 if rk != n - nr:
@@ -381,8 +395,8 @@ def operators_rule(ctx, rid="R2.E1"):
 
         return (f"thermal operators {elem}", repo.lookup_method(repo.cls(THERMAL), "Get_K_C_M_F"), thunk)
 
-    elems = ["TRI3", "QUAD4", "TRI6", "QUAD8", "TETRA4"] + (["QUAD9", "HEXA8", "PRISM6"] if ctx.tier == "thorough" else [])
-    run_scenarios(ctx, r, [scenario(e) for e in elems] + [thermal("TRI3"), thermal("QUAD4"), thermal("SEG3")])
+    elems = ["TRI3", "QUAD4", "TRI6", "QUAD8", "TETRA4", "TRI3+QUAD4"] + (["QUAD9", "HEXA8", "PRISM6"] if ctx.tier == "thorough" else [])
+    run_scenarios(ctx, r, [scenario(e) for e in elems] + [thermal("TRI3"), thermal("QUAD4"), thermal("SEG3"), thermal("TRI3+QUAD4")])
 
 
 # ---------------------------------------------------------------------------------------------------------------------
@@ -404,22 +418,27 @@ def assembly_rule(ctx, rid="R3.E1"):
             loc = W.call(simu, "Construct_local_matrix_system", "elastic")
             K, C, M, F = W.call(simu, "Get_K_C_M_F")
             n = md.Nn * dim
-            rows = md.groups[elem]
             for name, slot, A in (("K", 0, K), ("M", 2, M)):
                 ref = {}
-                blocks = [v[slot] for v in (loc.values() if isinstance(loc, dict) else [loc]) if v[slot] is not None]
-                if len(blocks) != 1:
-                    return f"{elem}: {len(blocks)} element blocks for {name}"
-                B = XArray.from_nested(blocks[0])
-                nd = len(rows[0]) * dim
-                if B.shape != (len(rows), nd, nd):
-                    return f"{elem}: element {name} has shape {B.shape}, expected {(len(rows), nd, nd)}"
-                for e, row in enumerate(rows):
-                    dofs = [nn * dim + c for nn in row for c in range(dim)]
-                    for a in range(nd):
-                        for b in range(nd):
-                            key = (dofs[a], dofs[b])
-                            ref[key] = ref.get(key, 0) + B[e, a, b]
+                nblocks = 0
+                for g, v in (loc.items() if isinstance(loc, dict) else []):
+                    if v[slot] is None:
+                        continue
+                    nblocks += 1
+                    gname = str(getattr(W.get(g, "elemType"), "name", W.get(g, "elemType")))
+                    rows = md.groups[gname]
+                    B = XArray.from_nested(v[slot])
+                    nd = len(rows[0]) * dim
+                    if B.shape != (len(rows), nd, nd):
+                        return f"{elem}: element {name} of group {gname} has shape {B.shape}, expected {(len(rows), nd, nd)}"
+                    for e, row in enumerate(rows):
+                        dofs = [nn * dim + c for nn in row for c in range(dim)]
+                        for a in range(nd):
+                            for b in range(nd):
+                                key = (dofs[a], dofs[b])
+                                ref[key] = ref.get(key, 0) + B[e, a, b]
+                if nblocks != (2 if elem in MIXED else 1):
+                    return f"{elem}: {nblocks} element blocks for {name}"
                 Ad = dense(A)
                 for i in range(n):
                     for j in range(n):
@@ -461,7 +480,7 @@ def assembly_rule(ctx, rid="R3.E1"):
 
         return (f"renumbering {elem}", kcmf, thunk)
 
-    run_scenarios(ctx, r, [scatter("TRI3"), scatter("QUAD8"), scatter("TETRA4"), renumber("TRI3"), renumber("QUAD4"), renumber("TRI6")])
+    run_scenarios(ctx, r, [scatter("TRI3"), scatter("QUAD8"), scatter("TETRA4"), scatter("TRI3+QUAD4"), renumber("TRI3"), renumber("QUAD4"), renumber("TRI6"), renumber("TRI3+QUAD4")])
 
 
 # ---------------------------------------------------------------------------------------------------------------------
@@ -594,7 +613,7 @@ def loads_rule(ctx, rid="R9.E1"):
             mat, simu = elastic(W, mesh, dim, thickness=th)
             fac = th if dim == 2 else Q(1)
             X, Y, Z = Poly.var("X"), Poly.var("Y"), Poly.var("Z")
-            order = W.lib.gmsh[elem]["order"]
+            order = W.lib.gmsh[MIXED.get(elem, (elem,))[0]]["order"]
             if kind == "volume-callable":
                 # body force density of the polynomial degree the element integrates exactly with its mass rule
                 dens = {1: "lambda x, y, z: 3 + 2 * x - y", 2: "lambda x, y, z: 3 + 2 * x * y - y * y"}[min(order, 2)]
@@ -673,7 +692,7 @@ def loads_rule(ctx, rid="R9.E1"):
             if elem == "TETRA4" and kind == "edge-callable":
                 continue
             scen.append(scenario(elem, kind))
-    scen += [scenario("TRI3", "line-constant"), scenario("QUAD8", "line-constant")]
+    scen += [scenario("TRI3", "line-constant"), scenario("QUAD8", "line-constant"), scenario("TRI3+QUAD4", "volume-callable"), scenario("TRI3+QUAD4", "edge-constant"), scenario("TRI3+QUAD4", "volume-array")]
     scen += [scenario("TRI3", "volume-array"), scenario("QUAD4", "volume-array"), scenario("TRI6", "volume-array"), scenario("QUAD4", "point"), scenario("TRI3", "point"), scenario("TRI3", "point-yx"), scenario("QUAD4", "edge-yx")]
     run_scenarios(ctx, r, scen)
 
@@ -997,7 +1016,7 @@ def geometry_rule(ctx, rid="R8.E1"):
     def scenario(elem):
         def thunk():
             W = World(repo, lib=W0.lib)
-            eq = close if elem in MASS_APPROX else same
+            eq = eq_for(elem, mass=True)
             md, mesh = domain_mesh(W, elem)
             dim = md.dim
             want_c = [Q(1), Q(1, 2), Q(1, 2) if dim == 3 else Q(0)]
@@ -1038,7 +1057,7 @@ def geometry_rule(ctx, rid="R8.E1"):
             g0 = W.call(mesh, "Get_list_groupElem", dim)[0]
             U = XArray((md.Nn, 3), [Q(k % 5, 7) for k in range(md.Nn * 3)])
             W.call(g0, "Get_GaussCoordinates_e_pg", mass, displacementMatrix=U)
-            if W.lib.gmsh[elem]["order"] == 1:
+            if W.lib.gmsh[MIXED.get(elem, (elem,))[0]]["order"] == 1:
                 for g in groups[:1]:
                     W.call(g, "Get_normals_e_pg", mass, U, False)  # (un-normalised: the deformed normals are irrational)
             bad = check("after a query on the deformed configuration", Q(2), want_c)
@@ -1092,7 +1111,7 @@ def geometry_rule(ctx, rid="R8.E1"):
 
         return (f"geometry {elem}", anchor, thunk)
 
-    elems = ["TRI3", "QUAD4", "TRI6", "QUAD8", "TETRA4"] + (["HEXA8", "PRISM6", "QUAD9"] if ctx.tier == "thorough" else [])
+    elems = ["TRI3", "QUAD4", "TRI6", "QUAD8", "TETRA4", "TRI3+QUAD4"] + (["HEXA8", "PRISM6", "QUAD9"] if ctx.tier == "thorough" else [])
     run_scenarios(ctx, r, [scenario(e) for e in elems])
 
 
